@@ -287,6 +287,8 @@ theorem nestedLoopJoin_wp {E : String → Prop} {fetch : Bytes → Option Table}
     cases jt with
     | inner =>
       dsimp only
+      split
+      · trivial
       apply Wp.bind (joinOuter_wp _ _ _ _ _ _ ?_ ?_)
       · intro rows hrows; exact hrows
       · intro o ho i hi
@@ -294,6 +296,8 @@ theorem nestedLoopJoin_wp {E : String → Prop} {fetch : Bytes → Option Table}
       · intro p e; cases e
     | left =>
       dsimp only
+      split
+      · trivial
       apply Wp.bind (joinOuter_wp _ _ _ _ _ _ ?_ ?_)
       · intro rows hrows; exact hrows
       · intro o ho i hi
@@ -303,6 +307,8 @@ theorem nestedLoopJoin_wp {E : String → Prop} {fetch : Bytes → Option Table}
         simp [hl o ho]
     | right =>
       dsimp only
+      split
+      · trivial
       apply Wp.bind (joinOuter_wp _ _ _ _ _ _ ?_ ?_)
       · intro rows hrows; exact hrows
       · intro o ho i hi
